@@ -18,6 +18,7 @@ def main():
     nv.build_util()
     nv.build_pair('x')
     nv.build_pair('f')
+    nv.build_rpc()
     nv.build_single('life', 'life_main.cpp')
     print('setup ok')
 
